@@ -43,6 +43,7 @@ def trees() -> list[Any]:
         R("VMany", items=(L(20), L(20), R("VReq", child=L(20)))),  # content-identical twins
         R("VReq", child=R("VMany", items=(R("VReq", child=L(21)), R("VOne", one=L(22))))),
         R("VMany", items=(R("VReq", child=L(23)), R("VReq", child=L(23)))),  # symmetric twins: equal nodes under equal parents
+        R("VMany", items=(R("VMany", items=(L(30), R("VMany", items=(L(31),)))), L(32))),  # nested matches before a later direct child
     ]
 
 
